@@ -524,7 +524,7 @@ theorem anonBody_metas (tbl : List TemplateSig) (va : Option Expr) (m : Meta) (l
             have hg := go_metas m rs _ _ plan _ _ seq ds hgo
             have hacc : Sub (metasAL ([] : List Acc)) (([] : List Meta)) := by
               intro x hx; simpa [metasAL, metasA] using hx
-            have hdecl : Sub (metasSL [Stmt.decl m .component (id ++ "@" ++ label) .nil]) (m :: ([] : List Meta)) := by
+            have hdecl : Sub (metasSL [Stmt.decl m .component (id ++ "#" ++ label) .nil]) (m :: ([] : List Meta)) := by
               intro x hx; simpa [metasSL, metasS, metasEs] using hx
             have hcall : Sub (metasE (if par = true then Expr.par m (Expr.call m id params) else Expr.call m id params)) (m :: metasEs params) := by
               intro x hx
@@ -536,8 +536,8 @@ theorem anonBody_metas (tbl : List TemplateSig) (va : Option Expr) (m : Meta) (l
                 · exact Or.inr hx
               · simpa [metasE] using hx
             have hout : Sub (metasE (match t.outputs with
-                | [o] => Expr.var m (id ++ "@" ++ label) (Accs.ofList (([] : List Acc) ++ [Acc.cmp o]))
-                | os => Expr.tuple m (Exprs.ofList (os.map (fun o => Expr.var m (id ++ "@" ++ label)
+                | [o] => Expr.var m (id ++ "#" ++ label) (Accs.ofList (([] : List Acc) ++ [Acc.cmp o]))
+                | os => Expr.tuple m (Exprs.ofList (os.map (fun o => Expr.var m (id ++ "#" ++ label)
                     (Accs.ofList (([] : List Acc) ++ [Acc.cmp o]))))))) (m :: ([] : List Meta)) := by
               intro x hx
               split at hx
@@ -549,13 +549,13 @@ theorem anonBody_metas (tbl : List TemplateSig) (va : Option Expr) (m : Meta) (l
               · simp only [metasE, List.mem_cons, metasEs_ofList] at hx
                 rcases hx with hx | hx
                 · exact List.mem_cons.mpr (Or.inl hx)
-                · have := metasL_map_outVar m (id ++ "@" ++ label) _ t.outputs x hx
+                · have := metasL_map_outVar m (id ++ "#" ++ label) _ t.outputs x hx
                   rcases List.mem_cons.mp this with h5 | h5
                   · exact List.mem_cons.mpr (Or.inl h5)
                   · exact List.mem_cons.mpr (Or.inr (hacc x h5))
             intro x hx
             simp only [List.mem_append] at hx
-            have hsub0 : ∀ y, y ∈ metasSL [Stmt.sub m (id ++ "@" ++ label) (Accs.ofList ([] : List Acc)) Op.var
+            have hsub0 : ∀ y, y ∈ metasSL [Stmt.sub m (id ++ "#" ++ label) (Accs.ofList ([] : List Acc)) Op.var
                 (if par = true then Expr.par m (Expr.call m id params) else Expr.call m id params)] →
                 y ∈ m :: (metasEs params ++ ([] : List Meta) ++ resM rs) := by
               intro y hy
@@ -608,7 +608,7 @@ theorem anonBody_metas (tbl : List TemplateSig) (va : Option Expr) (m : Meta) (l
             have hg := go_metas m rs _ _ plan _ _ seq ds hgo
             have hacc : Sub (metasAL [Acc.idx v]) (metasE v) := by
               intro x hx; simpa [metasAL, metasA] using hx
-            have hdecl : Sub (metasSL [Stmt.decl m .anon (id ++ "@" ++ label) (.cons v .nil)]) (m :: metasE v) := by
+            have hdecl : Sub (metasSL [Stmt.decl m .anon (id ++ "#" ++ label) (.cons v .nil)]) (m :: metasE v) := by
               intro x hx; simpa [metasSL, metasS, metasEs] using hx
             have hcall : Sub (metasE (if par = true then Expr.par m (Expr.call m id params) else Expr.call m id params)) (m :: metasEs params) := by
               intro x hx
@@ -620,8 +620,8 @@ theorem anonBody_metas (tbl : List TemplateSig) (va : Option Expr) (m : Meta) (l
                 · exact Or.inr hx
               · simpa [metasE] using hx
             have hout : Sub (metasE (match t.outputs with
-                | [o] => Expr.var m (id ++ "@" ++ label) (Accs.ofList ([Acc.idx v] ++ [Acc.cmp o]))
-                | os => Expr.tuple m (Exprs.ofList (os.map (fun o => Expr.var m (id ++ "@" ++ label)
+                | [o] => Expr.var m (id ++ "#" ++ label) (Accs.ofList ([Acc.idx v] ++ [Acc.cmp o]))
+                | os => Expr.tuple m (Exprs.ofList (os.map (fun o => Expr.var m (id ++ "#" ++ label)
                     (Accs.ofList ([Acc.idx v] ++ [Acc.cmp o]))))))) (m :: metasE v) := by
               intro x hx
               split at hx
@@ -633,13 +633,13 @@ theorem anonBody_metas (tbl : List TemplateSig) (va : Option Expr) (m : Meta) (l
               · simp only [metasE, List.mem_cons, metasEs_ofList] at hx
                 rcases hx with hx | hx
                 · exact List.mem_cons.mpr (Or.inl hx)
-                · have := metasL_map_outVar m (id ++ "@" ++ label) _ t.outputs x hx
+                · have := metasL_map_outVar m (id ++ "#" ++ label) _ t.outputs x hx
                   rcases List.mem_cons.mp this with h5 | h5
                   · exact List.mem_cons.mpr (Or.inl h5)
                   · exact List.mem_cons.mpr (Or.inr (hacc x h5))
             intro x hx
             simp only [List.mem_append] at hx
-            have hsub0 : ∀ y, y ∈ metasSL [Stmt.sub m (id ++ "@" ++ label) (Accs.ofList [Acc.idx v]) Op.var
+            have hsub0 : ∀ y, y ∈ metasSL [Stmt.sub m (id ++ "#" ++ label) (Accs.ofList [Acc.idx v]) Op.var
                 (if par = true then Expr.par m (Expr.call m id params) else Expr.call m id params)] →
                 y ∈ m :: (metasEs params ++ metasE v ++ resM rs) := by
               intro y hy
